@@ -188,8 +188,9 @@ def coherent(im: Impl):
     return probs
 
 class Gen:
-    def __init__(self, rnd, spec, weights, explicit_attacker_ids=True, extras=True, names=()):
+    def __init__(self, rnd, spec, weights, explicit_attacker_ids=True, extras=True, names=(), odd_defenses=False):
         self.r, self.spec, self.w = rnd, spec, weights
+        self.odd_defenses = odd_defenses       # also nan / inf as defense values (C06 only)
         self.extra_names = list(names)         # further asset names to draw from (the predictions below see them)
         self.explicit_attacker_ids, self.with_extras = explicit_attacker_ids, extras
         self.by = {a['name']: a for a in spec['assets']}
@@ -230,7 +231,7 @@ class Gen:
                                     r.choice(freed or [1]), r.choice(freed or [2])])
                 defs = []
                 for d in self.defenses_of(t):
-                    if r.random() < 0.4: defs.append([d, repr(r.choice([0.0, 1.0, 0.5, 0.25, -0.1, 1.0001, 1.0, 0.0]))])
+                    if r.random() < 0.4: defs.append([d, repr(r.choice([0.0, 1.0, 0.5, 0.25, -0.1, 1.0001, 1.0, 0.0] + ([float('nan'), float('inf')] if self.odd_defenses else [])))])
                 ok = all(0.0 <= float(v) <= 1.0 for _, v in defs)
                 extras = '{}' if r.random() < 0.8 or not self.with_extras else jtxt({'color': r.choice(['red', 'gr\u00fcn', 'bl\U0001F535']), 'n': r.randint(0, 3), 'w': r.choice([0.5, 1e-07, 1e+22, 3])})
                 allow = r.random() < 0.8
@@ -268,7 +269,7 @@ class Gen:
                     good = [a for a in pool if decl in self.anc(self.type[a])]
                     if r.random() < 0.15 or not good: good = pool         # wrong types sometimes
                     n = r.randint(1, min(len(good), 3))
-                    if mx and r.random() < 0.15: n = min(len(good), mx + 1)
+                    if mx is not None and r.random() < 0.15: n = min(len(good), mx + 1)
                     sel = r.sample(good, n)
                     if r.random() < 0.05: sel.append(sel[0])
                     return sel
@@ -354,7 +355,7 @@ class Gen:
     def predict_assoc_ok(self, assoc, cls, left, right):
         for sel, decl, mx in ((left, assoc['leftAsset'], assoc['leftMultiplicity']['max']), (right, assoc['rightAsset'], assoc['rightMultiplicity']['max'])):
             if any(decl not in self.anc(self.type[a]) for a in sel): return False
-            if mx and len(sel) > mx: return False
+            if mx is not None and len(sel) > mx: return False
             if any(a not in self.live_a for a in sel): return False
             if len({self.names_of[a] for a in sel}) != len(sel): return False
         for l in self.live_l:
